@@ -398,7 +398,8 @@ func c17Reachable(r *Run, depth, shard int) {
 		MkReceive(UserB.Str, in2, Attest(in2, signers), "plain(1,2^40)"),
 	)
 	bfs := &BFS{
-		Scn: scn, MaxDepth: depth, ValidatePaths: shard == 0, RootShard: shard, RootShards: c17Shards,
+		SeqDepth: 2,
+		Scn:      scn, MaxDepth: depth, ValidatePaths: shard == 0, RootShard: shard, RootShards: c17Shards,
 		Actions: func(n *Node, w *World) []Action {
 			as := menu
 			if u := envGet(n.Env, "u"); u != nil {
